@@ -14,7 +14,7 @@ func init() { register("C29", checkC29) }
 
 func checkC29(p *Prog, r *Result, tier string) {
 	r.Technique = "channel/wait-group/pipe protocol rules on go/cfg: close-on-all-paths, join-before-close, pipe reader released on every consumer exit, bounded-buffer drain after early loop exit, loop lower-bound of the chunker"
-	r.Explanation = "DUP the dispatcher hands every chunk to each DISTINCT target once (duplicated target ids are skipped per chunk); H1/H5 both send streams (SendLargeFile, Send) are closed exactly once by a first-statement defer after every sender goroutine (defer wg.Done() first, Add before spawn) was waited for; FD the goroutines feeding the input channel close it by a first-statement defer; " +
+	r.Explanation = "PERF the multi-file Send RPC opens one transfer stream per file (a per-target sender serves one destination path only); DUP the dispatcher hands every chunk to each DISTINCT target once (duplicated target ids are skipped per chunk); H1/H5 both send streams (SendLargeFile, Send) are closed exactly once by a first-statement defer after every sender goroutine (defer wg.Done() first, Add before spawn) was waited for; FD the goroutines feeding the input channel close it by a first-statement defer; " +
 		"H4 the per-target pipe: the consumer releases the pipe reader on every exit (deferred Close) — otherwise a consumer that never reads (missing target, lock failure) leaves the writer blocked forever; H6 the per-target goroutine drains its bounded buffer after leaving the receive loop early, so the dispatcher never blocks on a broken target; the writer end is closed on every path; " +
 		"H2 each consumer reports exactly one message per file (inside the lock callback, or the lock error); CH the chunker emits at least one chunk for every file, including an empty one."
 	r.NotCovered = "byte identity of the content, owner and mode (data, not shape); engine behaviour"
@@ -149,6 +149,29 @@ func checkC29(p *Prog, r *Result, tier string) {
 			}
 			r.check2(why, "DUP", key, p.pos(D.Decl), "ids already served for the chunk are skipped (per-chunk set, test-and-continue before the send)")
 		}
+	}
+	// PERF: the multi-file Send opens one transfer stream PER FILE: a per-target sender serves a single destination path
+	// (it stops at the first chunk of another file), so several files over one stream lose all files but the first
+	if S := p.Fn("rpc.(*Vibranium).Send"); S == nil {
+		r.undecided("PERF", "rpc.(*Vibranium).Send", "", "not found")
+	} else {
+		r.min("PERF", 1)
+		why := "no call of cluster.SendLargeFile found in Send"
+		S.inspectBody(func(n ast.Node) bool {
+			c, ok := n.(*ast.CallExpr)
+			if !ok || S.Callee(c) == nil || S.Callee(c).Name() != "SendLargeFile" {
+				return true
+			}
+			why = "the transfer stream is opened once for all files of the request (" + p.pos(c) + "): the per-target sender in calcium serves one destination and drops every chunk of a different file, so all files after the first are silently not written and get no result"
+			S.inspectBody(func(y ast.Node) bool {
+				if rs, ok := y.(*ast.RangeStmt); ok && strings.HasSuffix(exprStr(rs.X), ".Files") && rs.Body.Pos() <= c.Pos() && c.End() <= rs.Body.End() {
+					why = ""
+				}
+				return true
+			})
+			return true
+		})
+		r.check2(why, "PERF", "rpc.(*Vibranium).Send / one transfer stream per file", p.pos(S.Decl), "SendLargeFile is called inside the loop over the request's files")
 	}
 }
 
